@@ -526,3 +526,734 @@ pub proof fn lemma_sr_piece_expr(t: SrTable, value: Expression, base: RegisterPr
     reveal_with_fuel(sr_occurs, 4);
     reveal_with_fuel(sr_sized, 4);
 }
+
+// ---- facts about evaluation ---------------------------------------------------------------------------------------------
+
+pub proof fn lemma_sr_occurs_sub(e: Expression)
+    ensures match e {
+        Expression::BinOp { op, lhs, rhs } => (forall |v: Variable| #![trigger sr_occurs(*lhs, v)] sr_occurs(*lhs, v) ==> sr_occurs(e, v))
+                                           && (forall |v: Variable| #![trigger sr_occurs(*rhs, v)] sr_occurs(*rhs, v) ==> sr_occurs(e, v)),
+        Expression::UnOp { op, arg } => forall |v: Variable| #![trigger sr_occurs(*arg, v)] sr_occurs(*arg, v) ==> sr_occurs(e, v),
+        Expression::Cast { op, size, arg } => forall |v: Variable| #![trigger sr_occurs(*arg, v)] sr_occurs(*arg, v) ==> sr_occurs(e, v),
+        Expression::Subpiece { low_byte, size, arg } => forall |v: Variable| #![trigger sr_occurs(*arg, v)] sr_occurs(*arg, v) ==> sr_occurs(e, v),
+        _ => true,
+    },
+{
+}
+
+/// an expression over base registers at full size and names outside the table reads the same in both readings
+pub proof fn lemma_sr_eval_plain(t: SrTable, env: SrEnv, e: Expression)
+    requires sr_table_ok(t), sr_plain_expr(t, e),
+    ensures sr_eval(t, env, true, e) == sr_eval(t, env, false, e),
+    decreases e
+{
+    lemma_sr_occurs_sub(e);
+    match e {
+        Expression::Var(v) => {
+            assert(sr_occurs(e, v));
+            assert(sr_plain_var(t, v));
+            if t.contains_key(&v.name) { assert(t.contains_key(&sr_base(t, v.name))); }
+        }
+        Expression::Const(c) => {}
+        Expression::BinOp { op, lhs, rhs } => { lemma_sr_eval_plain(t, env, *lhs); lemma_sr_eval_plain(t, env, *rhs); }
+        Expression::UnOp { op, arg } => { lemma_sr_eval_plain(t, env, *arg); }
+        Expression::Cast { op, size, arg } => { lemma_sr_eval_plain(t, env, *arg); }
+        Expression::Unknown { description, size } => {}
+        Expression::Subpiece { low_byte, size, arg } => { lemma_sr_eval_plain(t, env, *arg); }
+    }
+}
+
+/// the value of an expression depends on the cells it reads only
+pub proof fn lemma_sr_eval_agree(t: SrTable, env1: SrEnv, env2: SrEnv, alias: bool, e: Expression, tmp: String)
+    requires sr_table_ok(t), !t.contains_key(&tmp), sr_avoids(e, tmp),
+             forall |n: String| n != tmp ==> #[trigger] env1(n) == env2(n),
+    ensures sr_eval(t, env1, alias, e) == sr_eval(t, env2, alias, e),
+    decreases e
+{
+    lemma_sr_occurs_sub(e);
+    match e {
+        Expression::Var(v) => {
+            assert(sr_occurs(e, v));
+            let c = sr_cell(t, alias, v);
+            if alias && t.contains_key(&v.name) { assert(t.contains_key(&sr_base(t, v.name))); }
+            assert(c != tmp);
+            assert(env1(c) == env2(c));
+        }
+        Expression::Const(c) => {}
+        Expression::BinOp { op, lhs, rhs } => { lemma_sr_eval_agree(t, env1, env2, alias, *lhs, tmp); lemma_sr_eval_agree(t, env1, env2, alias, *rhs, tmp); }
+        Expression::UnOp { op, arg } => { lemma_sr_eval_agree(t, env1, env2, alias, *arg, tmp); }
+        Expression::Cast { op, size, arg } => { lemma_sr_eval_agree(t, env1, env2, alias, *arg, tmp); }
+        Expression::Unknown { description, size } => {}
+        Expression::Subpiece { low_byte, size, arg } => { lemma_sr_eval_agree(t, env1, env2, alias, *arg, tmp); }
+    }
+}
+
+pub proof fn lemma_sr_bin_sized(op: BinOpType, a: Bitvector, b: Bitvector)
+    requires (op is BoolXOr || op is BoolAnd || op is BoolOr) ==> a.w@ == 8,
+    ensures sr_bin(op, a, b).w@ == out_bits(op, a.w@, b.w@), sr_bin(op, a, b).u@ < p2(sr_bin(op, a, b).w@),
+{
+    let w = out_bits(op, a.w@, b.w@);
+    lemma_p2(w);
+    match pcode_bin(op, a, b) {
+        Some(x) => {
+            assert(x.w@ == w);
+            vstd::arithmetic::div_mod::lemma_mod_bound(x.u@ as int, p2(w) as int);
+        }
+        None => { vstd::arithmetic::div_mod::lemma_mod_bound(sr_junk_bin(op, a, b) as int, p2(w) as int); }
+    }
+}
+pub proof fn lemma_sr_un_sized(op: UnOpType, a: Bitvector)
+    ensures sr_un(op, a).w@ == sr_un_bits(op, a.w@), sr_un(op, a).u@ < p2(sr_un(op, a).w@),
+{
+    let w = sr_un_bits(op, a.w@);
+    lemma_p2(w);
+    match pcode_un(op, a) {
+        Some(x) => { assert(x.w@ == w); vstd::arithmetic::div_mod::lemma_mod_bound(x.u@ as int, p2(w) as int); }
+        None => { vstd::arithmetic::div_mod::lemma_mod_bound(sr_junk_un(op, a) as int, p2(w) as int); }
+    }
+}
+pub proof fn lemma_sr_cast_sized(op: CastOpType, a: Bitvector, w: nat)
+    ensures sr_cast(op, a, w).w@ == w, sr_cast(op, a, w).u@ < p2(w),
+{
+    lemma_p2(w);
+    match pcode_cast(op, a, w) {
+        Some(x) => { assert(x.w@ == w); vstd::arithmetic::div_mod::lemma_mod_bound(x.u@ as int, p2(w) as int); }
+        None => { vstd::arithmetic::div_mod::lemma_mod_bound(sr_junk_cast(op, a, w) as int, p2(w) as int); }
+    }
+}
+
+/// a well-sized expression evaluates to a well-formed value of expr_bytes bytes
+pub proof fn lemma_sr_eval_sized(t: SrTable, env: SrEnv, alias: bool, e: Expression)
+    requires sr_sized(e),
+    ensures sr_eval(t, env, alias, e).wf(), sr_eval(t, env, alias, e).w@ == 8 * expr_bytes(e), 1 <= expr_bytes(e) <= MAXBYTES(),
+    decreases e
+{
+    match e {
+        Expression::Var(v) => {
+            lemma_p2((8 * v.size.0) as nat);
+            vstd::arithmetic::div_mod::lemma_mod_bound((env(sr_cell(t, alias, v)).u@ / p2(8 * sr_off(t, alias, v))) as int, p2((8 * v.size.0) as nat) as int);
+        }
+        Expression::Const(c) => {}
+        Expression::BinOp { op, lhs, rhs } => {
+            lemma_sr_eval_sized(t, env, alias, *lhs); lemma_sr_eval_sized(t, env, alias, *rhs);
+            lemma_sr_bin_sized(op, sr_eval(t, env, alias, *lhs), sr_eval(t, env, alias, *rhs));
+        }
+        Expression::UnOp { op, arg } => {
+            lemma_sr_eval_sized(t, env, alias, *arg);
+            lemma_sr_un_sized(op, sr_eval(t, env, alias, *arg));
+        }
+        Expression::Cast { op, size, arg } => {
+            lemma_sr_cast_sized(op, sr_eval(t, env, alias, *arg), (8 * size.0) as nat);
+        }
+        Expression::Unknown { description, size } => {
+            let w = (8 * size.0) as nat;
+            lemma_p2(w);
+            vstd::arithmetic::div_mod::lemma_mod_bound(sr_junk_unknown(description, w) as int, p2(w) as int);
+        }
+        Expression::Subpiece { low_byte, size, arg } => {
+            lemma_sr_eval_sized(t, env, alias, *arg);
+            let a = sr_eval(t, env, alias, *arg);
+            let w = (8 * size.0) as nat;
+            lemma_p2(w);
+            vstd::arithmetic::div_mod::lemma_mod_bound((a.u@ / p2((8 * low_byte.0) as nat)) as int, p2(w) as int);
+        }
+    }
+}
+
+// ---- facts about sr_insert ------------------------------------------------------------------------------------------------
+
+pub open spec fn sr_insert_u(u: nat, l: nat, s: nat, xu: nat) -> nat {
+    (u / p2(l + s)) * p2(l + s) + (xu % p2(s)) * p2(l) + u % p2(l)
+}
+
+pub proof fn lemma_sr_insert_arith(u: nat, w: nat, l: nat, s: nat, xu: nat)
+    requires u < p2(w), l + s <= w,
+    ensures
+        sr_insert_u(u, l, s, xu) < p2(w),
+        (sr_insert_u(u, l, s, xu) / p2(l)) % p2(s) == xu % p2(s),
+        (l == 0 && s == w) ==> sr_insert_u(u, l, s, xu) == xu % p2(s),
+{
+    let ls = l + s;
+    let hi = u / p2(ls); let xs = xu % p2(s); let lo = u % p2(l);
+    lemma_p2(w); lemma_p2(l); lemma_p2(s); lemma_p2(ls); lemma_p2((w - ls) as nat);
+    lemma_p2_consts();
+    vstd::arithmetic::power2::lemma_pow2_adds(s, l);
+    assert(p2(ls) == p2(s) * p2(l)) by { assert(s + l == ls); }
+    lemma_p2_mono(ls, w);
+    assert(p2(w) == p2(ls) * p2((w - ls) as nat));
+    lemma_sr_div_bound(u, w, ls);
+    vstd::arithmetic::div_mod::lemma_mod_bound(xu as int, p2(s) as int);
+    vstd::arithmetic::div_mod::lemma_mod_bound(u as int, p2(l) as int);
+    let pl = p2(l) as int; let ps = p2(s) as int; let pls = p2(ls) as int; let pd = p2((w - ls) as nat) as int;
+    // bound
+    assert((hi as int) * pls + (xs as int) * pl + (lo as int) < pls * pd) by (nonlinear_arith)
+        requires 0 <= hi < pd, 0 <= xs < ps, 0 <= lo < pl, pls == ps * pl, pl > 0, ps > 0;
+    // reading the field back
+    let i = sr_insert_u(u, l, s, xu);
+    let q = (hi as int) * ps + (xs as int);
+    assert(i as int == pl * q + (lo as int)) by (nonlinear_arith)
+        requires i as int == (hi as int) * pls + (xs as int) * pl + (lo as int), pls == ps * pl, q == (hi as int) * ps + (xs as int);
+    vstd::arithmetic::div_mod::lemma_fundamental_div_mod_converse(i as int, pl, q, lo as int);
+    assert((i as int) / pl == q);
+    assert(q == ps * (hi as int) + (xs as int)) by (nonlinear_arith) requires q == (hi as int) * ps + (xs as int);
+    vstd::arithmetic::div_mod::lemma_mod_multiples_vanish(hi as int, xs as int, ps);
+    vstd::arithmetic::div_mod::lemma_small_mod(xs, p2(s));
+    if l == 0 && s == w {
+        lemma_sr_div_small(u, w);
+        assert(hi == 0);
+        assert(lo == 0);
+        assert(i as int == xs as int) by (nonlinear_arith)
+            requires i as int == (hi as int) * pls + (xs as int) * pl + (lo as int), hi == 0, lo == 0, pl == 1;
+    }
+}
+
+/// replacing bytes inside a well-formed value gives a well-formed value of the same width; reading the bytes back gives the
+/// written value; replacing ALL bytes gives the written value
+pub proof fn lemma_sr_insert(old: Bitvector, lsb: nat, size: nat, x: Bitvector)
+    requires old.wf(), 8 * (lsb + size) <= old.w@,
+    ensures
+        sr_insert(old, lsb, size, x).wf(), sr_insert(old, lsb, size, x).w@ == old.w@,
+        pcode_subpiece(sr_insert(old, lsb, size, x), 8 * lsb, 8 * size) == sr_fit(x, size),
+        (lsb == 0 && 8 * size == old.w@) ==> sr_insert(old, lsb, size, x) == sr_fit(x, size),
+{
+    lemma_sr_insert_arith(old.u@, old.w@, 8 * lsb, 8 * size, x.u@);
+    assert(8 * (lsb + size) == 8 * lsb + 8 * size);
+    assert(sr_insert(old, lsb, size, x).u@ == sr_insert_u(old.u@, 8 * lsb, 8 * size, x.u@));
+}
+
+// ---- runs -------------------------------------------------------------------------------------------------------------------
+
+pub proof fn lemma_sr_run_prefix(t: SrTable, alias: bool, a: Seq<Term<Def>>, b: Seq<Term<Def>>, n: int, s: SrState)
+    requires 0 <= n <= a.len(), n <= b.len(), forall |i: int| 0 <= i < n ==> #[trigger] a[i] == b[i],
+    ensures sr_run(t, alias, a, 0, n, s) == sr_run(t, alias, b, 0, n, s),
+    decreases n
+{
+    if n > 0 {
+        lemma_sr_run_prefix(t, alias, a, b, n - 1, s);
+        assert(a[n - 1] == b[n - 1]);
+    }
+}
+
+// ---- simulation: the reference output executed plainly == the input def(s) executed with aliasing ---------------------------
+
+pub proof fn lemma_sr_fit(x: Bitvector, n: nat, old: Bitvector, l: nat)
+    requires 1 <= n <= MAXBYTES(),
+    ensures
+        sr_fit(x, n).wf(), sr_fit(x, n).w@ == 8 * n,
+        x.wf() && x.w@ == 8 * n ==> sr_fit(x, n) == x,
+        pcode_subpiece(sr_fit(x, n), 0, 8 * n) == sr_fit(x, n),
+        sr_fit(sr_fit(x, n), n) == sr_fit(x, n),
+        sr_insert(old, l, n, sr_fit(x, n)) == sr_insert(old, l, n, x),
+{
+    let w = 8 * n;
+    lemma_p2(w);
+    vstd::arithmetic::div_mod::lemma_mod_bound(x.u@ as int, p2(w) as int);
+    let f = x.u@ % p2(w);
+    vstd::arithmetic::div_mod::lemma_small_mod(f, p2(w));
+    lemma_sr_div_one(f);
+    if x.wf() && x.w@ == w { vstd::arithmetic::div_mod::lemma_small_mod(x.u@, p2(w)); }
+}
+
+/// the base register read plainly is the content of its cell (when the cell has the register's size)
+pub proof fn lemma_sr_read_base(t: SrTable, env: SrEnv, b: String)
+    requires sr_table_ok(t), sr_env_ok(t, env), t.contains_key(&b), (*t[&b]).base_register == b,
+    ensures sr_read(t, env, false, Variable { name: b, size: (*t[&b]).size, is_temp: false }) == env(b),
+            env(b).wf(), env(b).w@ == 8 * (*t[&b]).size.0,
+{
+    let u = env(b).u@;
+    lemma_sr_div_one(u);
+    vstd::arithmetic::div_mod::lemma_small_mod(u, p2(env(b).w@));
+}
+
+/// a plain expression that avoids the temporary has the same value on both sides of the simulation
+pub proof fn lemma_sr_value_same(t: SrTable, tmp: String, e: Expression, p: SrState, a: SrState)
+    requires sr_table_ok(t), !t.contains_key(&tmp), sr_plain_expr(t, e), sr_avoids(e, tmp), sr_sim(tmp, p, a),
+    ensures sr_eval(t, p.env, false, e) == sr_eval(t, a.env, true, e),
+            sr_eval(t, p.env, false, e) == sr_eval(t, a.env, false, e),
+{
+    lemma_sr_eval_plain(t, a.env, e);
+    lemma_sr_eval_agree(t, p.env, a.env, false, e, tmp);
+}
+
+/// writing a variable that is no sub-register: same effect in both readings
+pub proof fn lemma_sr_write_keep(t: SrTable, tmp: String, var: Variable, x: Bitvector, p: SrState, a: SrState)
+    requires sr_table_ok(t), !t.contains_key(&tmp), sr_sim(tmp, p, a), sr_env_ok(t, a.env),
+             sr_outvar_ok(t, var), var.name != tmp, !sr_needs(t, var),
+             t.contains_key(&var.name) ==> 1 <= var.size.0 <= MAXBYTES(),
+    ensures
+        sr_sim(tmp, SrState { env: sr_write(t, p.env, false, var, x), ..p }, SrState { env: sr_write(t, a.env, true, var, x), ..a }),
+        sr_env_ok(t, sr_write(t, a.env, true, var, x)),
+        sr_plain_var(t, var),
+{
+    let pe = sr_write(t, p.env, false, var, x);
+    let ae = sr_write(t, a.env, true, var, x);
+    if t.contains_key(&var.name) {
+        let b = var.name;
+        assert(sr_base(t, var.name) == b);
+        assert(t.contains_key(&sr_base(t, var.name)));
+        lemma_sr_read_base(t, a.env, b);
+        lemma_sr_insert((a.env)(b), 0, var.size.0 as nat, x);
+        lemma_sr_fit(x, var.size.0 as nat, (a.env)(b), 0);
+        assert(ae(b) == sr_fit(x, var.size.0 as nat));
+        assert forall |n: String| n != tmp implies #[trigger] pe(n) == ae(n) by {}
+        assert forall |n: String| #[trigger] t.contains_key(&n) && (*t[&n]).base_register == n implies ae(n).wf() && ae(n).w@ == 8 * (*t[&n]).size.0 by {}
+    } else {
+        assert forall |n: String| n != tmp implies #[trigger] pe(n) == ae(n) by {}
+        assert forall |n: String| #[trigger] t.contains_key(&n) && (*t[&n]).base_register == n implies ae(n).wf() && ae(n).w@ == 8 * (*t[&n]).size.0 by {}
+    }
+}
+
+/// a def that writes no sub-register and has plain inputs is kept: same effect
+pub proof fn lemma_sr_sim_keep(t: SrTable, tmp: String, d: Def, p: SrState, a: SrState)
+    requires sr_table_ok(t), !t.contains_key(&tmp), sr_sim(tmp, p, a), sr_env_ok(t, a.env),
+             sr_def_ok(t, tmp, d), sr_def_inputs_plain(t, d), !sr_writes_sub(t, d),
+    ensures
+        sr_sim(tmp, sr_step(t, false, d, p), sr_step(t, true, d, a)),
+        sr_env_ok(t, sr_step(t, true, d, a).env),
+        sr_def_plain(t, d),
+{
+    match d {
+        Def::Assign { var, value } => {
+            lemma_sr_value_same(t, tmp, value, p, a);
+            if t.contains_key(&var.name) { assert(t.contains_key(&sr_base(t, var.name))); }
+            lemma_sr_write_keep(t, tmp, var, sr_eval(t, p.env, false, value), p, a);
+        }
+        Def::Load { var, address } => {
+            lemma_sr_value_same(t, tmp, address, p, a);
+            if t.contains_key(&var.name) { assert(t.contains_key(&sr_base(t, var.name))); }
+            lemma_sr_write_keep(t, tmp, var, sr_mem_load(p.mem, sr_eval(t, p.env, false, address), (8 * var.size.0) as nat), p, a);
+        }
+        Def::Store { address, value } => {
+            lemma_sr_value_same(t, tmp, address, p, a);
+            lemma_sr_value_same(t, tmp, value, p, a);
+        }
+    }
+}
+
+/// facts about a written sub-register and its base register
+pub proof fn lemma_sr_sub_facts(t: SrTable, var: Variable)
+    requires sr_table_ok(t), sr_outvar_ok(t, var), sr_needs(t, var),
+    ensures
+        t.contains_key(&sr_base(t, var.name)),
+        sr_base_props(t, var.name).register == sr_base(t, var.name),
+        sr_base_props(t, var.name).base_register == sr_base(t, var.name),
+        sr_piece_pre(sr_base_props(t, var.name), sr_sub_props(t, var)),
+        sr_sub_props(t, var).lsb.0 == sr_lsb(t, var.name), sr_sub_props(t, var).size == var.size,
+        sr_base_props(t, var.name).size.0 == sr_base_size(t, var.name),
+        8 * (sr_lsb(t, var.name) + var.size.0) <= 8 * sr_base_size(t, var.name),
+{
+    let b = sr_base(t, var.name);
+    assert(t.contains_key(&b));
+    assert((*t[&b]).register == b);
+}
+
+/// `sub = x` (x the value of a plain expression) as an assignment to the base register
+pub proof fn lemma_sr_sim_piece(t: SrTable, tmp: String, var: Variable, value: Expression, pe: SrEnv, ae: SrEnv, x: Bitvector)
+    requires sr_table_ok(t), !t.contains_key(&tmp), sr_env_ok(t, ae), sr_outvar_ok(t, var), sr_needs(t, var),
+             forall |n: String| n != tmp ==> #[trigger] pe(n) == ae(n),
+             expr_bytes(value) == var.size.0,
+             sr_eval(t, pe, false, value) == x, x.wf(), x.w@ == 8 * var.size.0,
+    ensures ({
+        let d = sr_base_assign(t, var, value);
+        let b = sr_base(t, var.name);
+        let new_p = sr_write(t, pe, false, d->Assign_var, sr_eval(t, pe, false, d->Assign_value));
+        let new_a = sr_write(t, ae, true, var, x);
+        &&& forall |n: String| n != tmp ==> #[trigger] new_p(n) == new_a(n)
+        &&& sr_env_ok(t, new_a)
+        &&& new_p(tmp) == pe(tmp)
+        &&& sr_plain_var(t, d->Assign_var)
+        &&& (forall |v: Variable| #![trigger sr_occurs(d->Assign_value, v)] sr_occurs(d->Assign_value, v) ==> sr_occurs(value, v) || sr_plain_var(t, v))
+    }),
+{
+    let d = sr_base_assign(t, var, value);
+    let b = sr_base(t, var.name);
+    let bp = sr_base_props(t, var.name);
+    let sp = sr_sub_props(t, var);
+    lemma_sr_sub_facts(t, var);
+    lemma_sr_piece_expr(t, value, bp, sp);
+    let r = sr_piece_expr(value, bp, sp);
+    let base_var = Variable { name: bp.register, size: bp.size, is_temp: false };
+    assert(d->Assign_var == base_var);
+    assert(d->Assign_value == r);
+    lemma_sr_read_base(t, ae, b);
+    assert(b != tmp);
+    assert(pe(b) == ae(b));
+    // the base register read plainly from pe
+    let u = pe(b).u@;
+    lemma_sr_div_one(u);
+    vstd::arithmetic::div_mod::lemma_small_mod(u, p2(pe(b).w@));
+    assert(sr_read(t, pe, false, base_var) == pe(b));
+    let ins = sr_insert(ae(b), sr_lsb(t, var.name), var.size.0 as nat, x);
+    assert(sr_eval(t, pe, false, r) == ins);
+    lemma_sr_insert(ae(b), sr_lsb(t, var.name), var.size.0 as nat, x);
+    lemma_sr_fit(ins, bp.size.0 as nat, ae(b), 0);
+    let new_p = sr_write(t, pe, false, base_var, ins);
+    let new_a = sr_write(t, ae, true, var, x);
+    assert(new_p(b) == ins);
+    assert(new_a(b) == ins);
+    assert forall |n: String| n != tmp implies #[trigger] new_p(n) == new_a(n) by {}
+    assert forall |n: String| #[trigger] t.contains_key(&n) && (*t[&n]).base_register == n implies new_a(n).wf() && new_a(n).w@ == 8 * (*t[&n]).size.0 by {}
+    assert(sr_plain_var(t, base_var));
+}
+
+/// `S = x; B = CAST(S)` (B the base register of S, written at full size) as the single assignment `B = CAST(xe)`, where the
+/// plain value of `xe` is x
+pub proof fn lemma_sr_sim_merge(t: SrTable, tmp: String, var: Variable, next: Def, xe: Expression, pe: SrEnv, ae: SrEnv, x: Bitvector)
+    requires sr_table_ok(t), !t.contains_key(&tmp), sr_env_ok(t, ae), sr_outvar_ok(t, var), sr_needs(t, var),
+             forall |n: String| n != tmp ==> #[trigger] pe(n) == ae(n),
+             sr_eval(t, pe, false, xe) == x, x.wf(), x.w@ == 8 * var.size.0,
+             sr_merge_ok(t, var, next),
+             next->Assign_var.size.0 == (*t[&next->Assign_var.name]).size.0,
+    ensures ({
+        let cv = next->Assign_var;
+        let m = sr_def_subst(next, var, xe);
+        let new_p = sr_write(t, pe, false, cv, sr_eval(t, pe, false, m->Assign_value));
+        let a1 = sr_write(t, ae, true, var, x);
+        let new_a = sr_write(t, a1, true, cv, sr_eval(t, a1, true, next->Assign_value));
+        &&& m is Assign && m->Assign_var == cv
+        &&& forall |n: String| n != tmp ==> #[trigger] new_p(n) == new_a(n)
+        &&& sr_env_ok(t, new_a)
+        &&& new_p(tmp) == pe(tmp)
+        &&& sr_plain_var(t, cv)
+        &&& (forall |v: Variable| #![trigger sr_occurs(m->Assign_value, v)] sr_occurs(m->Assign_value, v) ==> sr_occurs(xe, v))
+    }),
+{
+    let cv = next->Assign_var;
+    let b = sr_base(t, var.name);
+    lemma_sr_sub_facts(t, var);
+    assert(cv.name == b);
+    assert((*t[&b]).base_register == b);
+    let op = next->Assign_value->Cast_op;
+    let csz = next->Assign_value->Cast_size;
+    let m = sr_def_subst(next, var, xe);
+    reveal_with_fuel(sr_subst1, 3);
+    assert(next->Assign_value == Expression::Cast { op: op, size: csz, arg: next->Assign_value->Cast_arg });
+    assert(m->Assign_value == Expression::Cast { op: op, size: csz, arg: Box::new(xe) });
+    reveal_with_fuel(sr_occurs, 3);
+    reveal_with_fuel(sr_eval, 3);
+    // aliasing side: write the sub-register, read it back, cast, overwrite the base register
+    lemma_sr_read_base(t, ae, b);
+    let old = ae(b);
+    let lsb = sr_lsb(t, var.name);
+    let sz = var.size.0 as nat;
+    let bsz = (*t[&b]).size.0 as nat;
+    let ins = sr_insert(old, lsb, sz, x);
+    lemma_sr_insert(old, lsb, sz, x);
+    lemma_sr_fit(x, sz, old, lsb);
+    let a1 = sr_write(t, ae, true, var, x);
+    assert(a1(b) == ins);
+    assert(sr_read(t, a1, true, var) == x);
+    let y = sr_cast(op, x, (8 * csz.0) as nat);
+    assert(sr_eval(t, a1, true, next->Assign_value) == y);
+    assert(sr_base(t, cv.name) == b && sr_lsb(t, cv.name) == 0);
+    lemma_sr_insert(ins, 0, bsz, y);
+    lemma_sr_fit(y, bsz, ins, 0);
+    let new_a = sr_write(t, a1, true, cv, y);
+    assert(new_a(b) == sr_fit(y, bsz));
+    // plain side
+    assert(sr_eval(t, pe, false, m->Assign_value) == y);
+    let new_p = sr_write(t, pe, false, cv, y);
+    assert(new_p(b) == sr_fit(y, bsz));
+    assert(b != tmp);
+    assert forall |n: String| n != tmp implies #[trigger] new_p(n) == new_a(n) by {}
+    assert forall |n: String| #[trigger] t.contains_key(&n) && (*t[&n]).base_register == n implies new_a(n).wf() && new_a(n).w@ == 8 * (*t[&n]).size.0 by {}
+}
+
+pub proof fn lemma_sr_run_terms_1(t: SrTable, alias: bool, x: Def, s: SrState)
+    ensures sr_run_terms(t, alias, seq![x], s) == sr_step(t, alias, x, s),
+{
+    let ds = seq![x];
+    assert(ds.last() == x);
+    assert(ds.drop_last() =~= Seq::<Def>::empty());
+    reveal_with_fuel(sr_run_terms, 3);
+}
+pub proof fn lemma_sr_run_terms_2(t: SrTable, alias: bool, x: Def, y: Def, s: SrState)
+    ensures sr_run_terms(t, alias, seq![x, y], s) == sr_step(t, alias, y, sr_step(t, alias, x, s)),
+{
+    let ds = seq![x, y];
+    assert(ds.last() == y);
+    assert(ds.drop_last() =~= seq![x]);
+    lemma_sr_run_terms_1(t, alias, x, s);
+    reveal_with_fuel(sr_run_terms, 2);
+}
+
+/// what the aliasing side ends in after `d` (and the merged cast)
+pub open spec fn sr_alias_after(t: SrTable, d: Def, merge: bool, next: Def, a: SrState) -> SrState {
+    if sr_consumes(t, d, merge) { sr_step(t, true, next, sr_step(t, true, d, a)) } else { sr_step(t, true, d, a) }
+}
+
+pub open spec fn sr_merge_pre(t: SrTable, d: Def, merge: bool, next: Def) -> bool {
+    merge ==> sr_writes_sub(t, d) && sr_merge_ok(t, sr_def_out(d)->Some_0, next)
+              && next->Assign_var.size.0 == (*t[&next->Assign_var.name]).size.0
+}
+
+/// THE SIMULATION STEP: the reference output for `d` executed plainly == `d` (and the merged cast) executed with aliasing
+pub proof fn lemma_sr_out_sim(t: SrTable, tmp: String, d: Def, merge: bool, next: Def, p: SrState, a: SrState)
+    requires sr_table_ok(t), !t.contains_key(&tmp), sr_sim(tmp, p, a), sr_env_ok(t, a.env),
+             sr_def_ok(t, tmp, d), sr_def_inputs_plain(t, d), sr_merge_pre(t, d, merge, next),
+    ensures ({
+        let new = sr_out_terms(t, tmp, d, merge, next);
+        let a2 = sr_alias_after(t, d, merge, next, a);
+        &&& sr_sim(tmp, sr_run_terms(t, false, new, p), a2)
+        &&& sr_env_ok(t, a2.env)
+        &&& 1 <= new.len() <= 2
+        &&& forall |i: int| 0 <= i < new.len() ==> sr_def_plain(t, #[trigger] new[i])
+    }),
+{
+    let new = sr_out_terms(t, tmp, d, merge, next);
+    if !sr_writes_sub(t, d) {
+        assert(new =~= seq![d]);
+        lemma_sr_run_terms_1(t, false, d, p);
+        lemma_sr_sim_keep(t, tmp, d, p, a);
+    } else {
+        match d {
+            Def::Assign { var, value } => {
+                lemma_sr_value_same(t, tmp, value, p, a);
+                let x = sr_eval(t, p.env, false, value);
+                lemma_sr_eval_sized(t, p.env, false, value);
+                if merge {
+                    let m = sr_def_subst(next, var, value);
+                    assert(new =~= seq![m]);
+                    lemma_sr_run_terms_1(t, false, m, p);
+                    lemma_sr_sim_merge(t, tmp, var, next, value, p.env, a.env, x);
+                    assert(sr_plain_expr(t, m->Assign_value));
+                    assert(sr_def_plain(t, m));
+                } else {
+                    let m = sr_base_assign(t, var, value);
+                    assert(new =~= seq![m]);
+                    lemma_sr_run_terms_1(t, false, m, p);
+                    lemma_sr_sim_piece(t, tmp, var, value, p.env, a.env, x);
+                    assert(sr_plain_expr(t, m->Assign_value));
+                    assert(sr_def_plain(t, m));
+                }
+            }
+            Def::Load { var, address } => {
+                lemma_sr_value_same(t, tmp, address, p, a);
+                lemma_sr_sub_facts(t, var);
+                let tv = sr_tmp_var(tmp, var.size);
+                let ld = Def::Load { var: tv, address: address };
+                let sz = var.size.0 as nat;
+                let loaded = sr_mem_load(p.mem, sr_eval(t, p.env, false, address), (8 * var.size.0) as nat);
+                let p1 = sr_step(t, false, ld, p);
+                assert(p1.env == sr_upd(p.env, tmp, sr_fit(loaded, sz)));
+                let x = sr_fit(loaded, sz);
+                lemma_sr_fit(loaded, sz, (a.env)(sr_base(t, var.name)), sr_lsb(t, var.name));
+                let xe = Expression::Var(tv);
+                assert(sr_eval(t, p1.env, false, xe) == x);
+                assert forall |n: String| n != tmp implies #[trigger] (p1.env)(n) == (a.env)(n) by {}
+                // the aliasing side writes `loaded`; writing its low bytes is the same write
+                assert(sr_write(t, a.env, true, var, loaded) == sr_write(t, a.env, true, var, x));
+                assert(sr_plain_var(t, tv));
+                assert(sr_def_plain(t, ld));
+                reveal_with_fuel(sr_occurs, 2);
+                if merge {
+                    let m = sr_def_subst(next, var, xe);
+                    assert(new =~= seq![ld, m]);
+                    lemma_sr_run_terms_2(t, false, ld, m, p);
+                    lemma_sr_sim_merge(t, tmp, var, next, xe, p1.env, a.env, x);
+                    assert(sr_plain_expr(t, m->Assign_value));
+                    assert(sr_def_plain(t, m));
+                } else {
+                    let m = sr_base_assign(t, var, xe);
+                    assert(new =~= seq![ld, m]);
+                    lemma_sr_run_terms_2(t, false, ld, m, p);
+                    lemma_sr_sim_piece(t, tmp, var, xe, p1.env, a.env, x);
+                    assert(sr_plain_expr(t, m->Assign_value));
+                    assert(sr_def_plain(t, m));
+                }
+            }
+            Def::Store { address, value } => {}
+        }
+    }
+}
+
+/// a plain expression fits
+pub proof fn lemma_sr_plain_fits(t: SrTable, e: Expression)
+    requires sr_table_ok(t), sr_plain_expr(t, e),
+    ensures sr_expr_fits(t, e),
+{
+    assert forall |v: Variable| #![trigger sr_occurs(e, v)] sr_occurs(e, v) implies sr_var_fits(t, v) by {
+        assert(sr_plain_var(t, v));
+        if t.contains_key(&v.name) { assert(t.contains_key(&sr_base(t, v.name))); }
+    }
+}
+pub proof fn lemma_sr_replaced_avoids(t: SrTable, tmp: String, e0: Expression, e1: Expression)
+    requires sr_table_ok(t), !t.contains_key(&tmp), sr_inputs_replaced(t, e0, e1), sr_avoids(e0, tmp),
+    ensures sr_avoids(e1, tmp), sr_expr_fits(t, e1), sr_plain_expr(t, e1),
+{
+    lemma_sr_plain_fits(t, e1);
+    assert forall |v: Variable| #![trigger sr_occurs(e1, v)] sr_occurs(e1, v) implies v.name != tmp by {
+        if sr_occurs(e0, v) { } else { assert(t.contains_key(&v.name)); }
+    }
+}
+
+/// the def with its inputs replaced: still well-formed, plain inputs, and the same step in the aliasing reading
+pub proof fn lemma_sr_def_mid(t: SrTable, tmp: String, d0: Def, d1: Def)
+    requires sr_table_ok(t), !t.contains_key(&tmp), sr_def_ok(t, tmp, d0), sr_def_inputs_replaced(t, d0, d1),
+    ensures sr_def_ok(t, tmp, d1), sr_def_inputs_plain(t, d1), sr_def_out(d1) == sr_def_out(d0),
+            forall |a: SrState| #[trigger] sr_step(t, true, d1, a) == sr_step(t, true, d0, a),
+{
+    match d0 {
+        Def::Assign { var, value } => {
+            let v1 = d1->Assign_value;
+            lemma_sr_replaced_avoids(t, tmp, value, v1);
+            assert forall |a: SrState| #[trigger] sr_step(t, true, d1, a) == sr_step(t, true, d0, a) by {
+                lemma_sr_eval_plain(t, a.env, v1);
+                assert(sr_eval(t, a.env, false, v1) == sr_eval(t, a.env, true, value));
+            }
+        }
+        Def::Load { var, address } => {
+            let v1 = d1->Load_address;
+            lemma_sr_replaced_avoids(t, tmp, address, v1);
+            assert forall |a: SrState| #[trigger] sr_step(t, true, d1, a) == sr_step(t, true, d0, a) by {
+                lemma_sr_eval_plain(t, a.env, v1);
+                assert(sr_eval(t, a.env, false, v1) == sr_eval(t, a.env, true, address));
+            }
+        }
+        Def::Store { address, value } => {
+            let a1 = d1->Store_address; let v1 = d1->Store_value;
+            lemma_sr_replaced_avoids(t, tmp, address, a1);
+            lemma_sr_replaced_avoids(t, tmp, value, v1);
+            assert forall |a: SrState| #[trigger] sr_step(t, true, d1, a) == sr_step(t, true, d0, a) by {
+                lemma_sr_eval_plain(t, a.env, a1); lemma_sr_eval_plain(t, a.env, v1);
+                assert(sr_eval(t, a.env, false, a1) == sr_eval(t, a.env, true, address));
+                assert(sr_eval(t, a.env, false, v1) == sr_eval(t, a.env, true, value));
+            }
+        }
+    }
+}
+
+/// the reference output is plain (state-free form of the last clause of lemma_sr_out_sim)
+pub proof fn lemma_sr_out_sim_plain(t: SrTable, tmp: String, d: Def, merge: bool, next: Def)
+    requires sr_table_ok(t), !t.contains_key(&tmp), sr_def_ok(t, tmp, d), sr_def_inputs_plain(t, d), sr_merge_pre(t, d, merge, next),
+    ensures ({
+        let new = sr_out_terms(t, tmp, d, merge, next);
+        &&& 1 <= new.len() <= 2
+        &&& forall |i: int| 0 <= i < new.len() ==> sr_def_plain(t, #[trigger] new[i])
+    }),
+{
+    // any pair of simulating states with well-sized base register cells will do
+    let env0: SrEnv = |n: String| if t.contains_key(&n) { bv((8 * (*t[&n]).size.0) as nat, 0) } else { bv(8, 0) };
+    let s0 = SrState { env: env0, mem: arbitrary(), writes: Seq::empty() };
+    assert forall |n: String| #[trigger] t.contains_key(&n) && (*t[&n]).base_register == n implies env0(n).wf() && env0(n).w@ == 8 * (*t[&n]).size.0 by {
+        lemma_p2((8 * (*t[&n]).size.0) as nat);
+    }
+    lemma_sr_out_sim(t, tmp, d, merge, next, s0, s0);
+}
+
+/// ONE ROUND OF THE BUILDER, for one start state
+pub proof fn lemma_sr_inv_step_state(t: SrTable, tmp: String, defs: Seq<Term<Def>>, pos: int, out0: Seq<Term<Def>>, d1: Def, merge: bool,
+                                     pos1: int, out1: Seq<Term<Def>>, s: SrState)
+    requires sr_table_ok(t), sr_defs_ok(t, tmp, defs), 1 <= pos <= defs.len(),
+             sr_inv(t, tmp, defs, pos - 1, out0),
+             sr_def_inputs_replaced(t, defs[pos - 1].term, d1),
+             sr_out_rel(t, tmp, d1, defs, pos, pos1, out0, out1, merge),
+             sr_env_ok(t, s.env),
+    ensures sr_sim(tmp, sr_run(t, false, out1, 0, out1.len() as int, s), sr_run(t, true, defs, 0, pos1, s)),
+            sr_env_ok(t, sr_run(t, true, defs, 0, pos1, s).env),
+{
+    let d0 = defs[pos - 1].term;
+    let next = defs[pos].term;
+    lemma_sr_def_mid(t, tmp, d0, d1);
+    let new = sr_out_terms(t, tmp, d1, merge, next);
+    let n0 = out0.len() as int;
+    assert(sr_writes_sub(t, d1) == sr_writes_sub(t, d0));
+    if merge {
+        assert(pos < defs.len());
+        assert(sr_no_narrow_cast(t, defs[pos - 1].term, defs[pos - 1 + 1].term));
+    }
+    assert(sr_merge_pre(t, d1, merge, next));
+    let p = sr_run(t, false, out0, 0, n0, s);
+    let a = sr_run(t, true, defs, 0, pos - 1, s);
+    assert(sr_sim(tmp, p, a) && sr_env_ok(t, a.env));
+    lemma_sr_out_sim(t, tmp, d1, merge, next, p, a);
+    // aliasing side
+    assert(sr_run(t, true, defs, 0, pos, s) == sr_step(t, true, d0, a));
+    assert(sr_step(t, true, d1, a) == sr_step(t, true, d0, a));
+    if sr_consumes(t, d1, merge) {
+        assert(sr_run(t, true, defs, 0, pos + 1, s) == sr_step(t, true, next, sr_run(t, true, defs, 0, pos, s)));
+    }
+    assert(sr_run(t, true, defs, 0, pos1, s) == sr_alias_after(t, d1, merge, next, a));
+    // plain side
+    lemma_sr_run_prefix(t, false, out1, out0, n0, s);
+    assert(sr_run(t, false, out1, 0, n0, s) == p);
+    if new.len() == 1 {
+        assert(new =~= seq![new[0]]);
+        lemma_sr_run_terms_1(t, false, new[0], p);
+        assert(out1[n0 + 0].term == new[0]);
+        assert(sr_run(t, false, out1, 0, n0 + 1, s) == sr_step(t, false, out1[n0].term, sr_run(t, false, out1, 0, n0, s)));
+    } else {
+        assert(new =~= seq![new[0], new[1]]);
+        lemma_sr_run_terms_2(t, false, new[0], new[1], p);
+        assert(out1[n0 + 0].term == new[0]);
+        assert(out1[n0 + 1].term == new[1]);
+        assert(sr_run(t, false, out1, 0, n0 + 1, s) == sr_step(t, false, out1[n0].term, sr_run(t, false, out1, 0, n0, s)));
+        assert(sr_run(t, false, out1, 0, n0 + 2, s) == sr_step(t, false, out1[n0 + 1].term, sr_run(t, false, out1, 0, n0 + 1, s)));
+    }
+    assert(sr_run(t, false, out1, 0, out1.len() as int, s) == sr_run_terms(t, false, new, p));
+}
+
+/// ONE ROUND OF THE BUILDER keeps the claim: the def at pos-1 (inputs replaced: d1) handled by replace_output_subregister
+pub proof fn lemma_sr_inv_step(t: SrTable, tmp: String, defs: Seq<Term<Def>>, pos: int, out0: Seq<Term<Def>>, d1: Def, merge: bool,
+                               pos1: int, out1: Seq<Term<Def>>)
+    requires sr_table_ok(t), sr_defs_ok(t, tmp, defs), 1 <= pos <= defs.len(),
+             sr_inv(t, tmp, defs, pos - 1, out0),
+             sr_def_inputs_replaced(t, defs[pos - 1].term, d1),
+             sr_out_rel(t, tmp, d1, defs, pos, pos1, out0, out1, merge),
+    ensures sr_inv(t, tmp, defs, pos1, out1),
+{
+    let d0 = defs[pos - 1].term;
+    let next = defs[pos].term;
+    let new = sr_out_terms(t, tmp, d1, merge, next);
+    let n0 = out0.len() as int;
+    assert forall |s: SrState| sr_env_ok(t, s.env) implies ({
+            &&& sr_sim(tmp, #[trigger] sr_run(t, false, out1, 0, out1.len() as int, s), sr_run(t, true, defs, 0, pos1, s))
+            &&& sr_env_ok(t, sr_run(t, true, defs, 0, pos1, s).env)
+        }) by {
+        lemma_sr_inv_step_state(t, tmp, defs, pos, out0, d1, merge, pos1, out1, s);
+    }
+    assert forall |i: int| 0 <= i < out1.len() implies sr_def_plain(t, (#[trigger] out1[i]).term) by {
+        if i < n0 { assert(out1[i] == out0[i]); } else {
+            lemma_sr_def_mid(t, tmp, d0, d1);
+            if merge { assert(sr_no_narrow_cast(t, defs[pos - 1].term, defs[pos - 1 + 1].term)); }
+            lemma_sr_out_sim_plain(t, tmp, d1, merge, next);
+            assert(out1[n0 + (i - n0)].term == new[i - n0]);
+        }
+    }
+}
+
+// ---- the property-level reading of sr_block_replaced (client lemma) ------------------------------------------------------------
+
+/// PROPERTY C11, sub-register substitution of one block, spelled out: for EVERY start state (cells of the base registers of
+/// the register's size, any memory), the block after the substitution, executed plainly, and the block before it, executed with
+/// aliasing, end with
+///   (1) the same content of every base register of the table,
+///   (2) the same memory and the same sequence of memory writes (address, value),
+///   (3) for every jump the same value of the condition / indirect target.
+pub proof fn lemma_sr_block_claim(t: SrTable, old: Term<Blk>, new: Term<Blk>, s: SrState)
+    requires sr_table_ok(t), sr_block_ok(t, old.term), sr_block_replaced(t, old, new), sr_env_ok(t, s.env),
+    ensures ({
+        let p = sr_run(t, false, new.term.defs@, 0, new.term.defs@.len() as int, s);
+        let a = sr_run(t, true, old.term.defs@, 0, old.term.defs@.len() as int, s);
+        &&& forall |b: String| #[trigger] t.contains_key(&b) ==> (p.env)(b) == (a.env)(b)
+        &&& p.mem == a.mem && p.writes == a.writes
+        &&& forall |i: int| 0 <= i < old.term.jmps@.len() && sr_jmp_expr((#[trigger] old.term.jmps@[i]).term) is Some ==>
+                sr_jmp_expr(new.term.jmps@[i].term) is Some
+                && sr_eval(t, p.env, false, sr_jmp_expr(new.term.jmps@[i].term)->Some_0) == sr_eval(t, a.env, true, sr_jmp_expr(old.term.jmps@[i].term)->Some_0)
+    }),
+{
+    let tmp = sr_tmp();
+    let p = sr_run(t, false, new.term.defs@, 0, new.term.defs@.len() as int, s);
+    let a = sr_run(t, true, old.term.defs@, 0, old.term.defs@.len() as int, s);
+    assert(sr_sim(tmp, p, a));
+    assert forall |b: String| #[trigger] t.contains_key(&b) implies (p.env)(b) == (a.env)(b) by { assert(b != tmp); }
+    assert forall |i: int| 0 <= i < old.term.jmps@.len() && sr_jmp_expr((#[trigger] old.term.jmps@[i]).term) is Some implies
+                sr_jmp_expr(new.term.jmps@[i].term) is Some
+                && sr_eval(t, p.env, false, sr_jmp_expr(new.term.jmps@[i].term)->Some_0) == sr_eval(t, a.env, true, sr_jmp_expr(old.term.jmps@[i].term)->Some_0) by {
+        let e0 = sr_jmp_expr(old.term.jmps@[i].term)->Some_0;
+        assert(sr_jump_replaced(t, old.term.jmps@[i].term, new.term.jmps@[i].term));
+        let e1 = sr_jmp_expr(new.term.jmps@[i].term)->Some_0;
+        assert(sr_eval(t, p.env, false, e1) == sr_eval(t, p.env, true, e0));
+        lemma_sr_eval_agree(t, p.env, a.env, true, e0, tmp);
+    }
+}
